@@ -61,11 +61,19 @@ pub fn relax() {
 /// after `spins` yields in coroutine context. Returns whether the flag was seen.
 pub fn wait_flag(flag: &AtomicBool, spins: usize) -> bool {
     if may::coroutine::is_coroutine() {
-        for _ in 0..spins {
+        // a few yields, then sleep-poll: a pure yield loop would burn the step budget
+        // while a stalled thread holds things up (time passes only 25 ns per step)
+        let mut nap = 20_000u64;
+        for k in 0..spins {
             if flag.load(Ordering::Relaxed) {
                 return true;
             }
-            may::coroutine::yield_now();
+            if k < 16 {
+                may::coroutine::yield_now();
+            } else {
+                may::coroutine::sleep(std::time::Duration::from_nanos(nap));
+                nap = (nap * 2).min(1_000_000);
+            }
         }
         flag.load(Ordering::Relaxed)
     } else {
@@ -193,3 +201,96 @@ impl<T: Send + 'static> Mailbox<T> {
 }
 
 pub static SCRATCH: AtomicU64 = AtomicU64::new(0);
+
+// ------------------------------------------------------------------------------------------------
+// actors: a script executed either by a plain simulated thread or by a coroutine
+// ------------------------------------------------------------------------------------------------
+
+#[derive(Clone, Copy, Debug, PartialEq)]
+pub enum Ctx {
+    Thread,
+    Co,
+}
+
+impl Ctx {
+    pub fn gen(r: &mut Rng) -> Ctx {
+        if r.chance(1, 2) {
+            Ctx::Thread
+        } else {
+            Ctx::Co
+        }
+    }
+}
+
+pub struct Actor {
+    pub name: String,
+    pub ctx: Ctx,
+    pub done: Arc<AtomicBool>,
+    pub co: Option<may::coroutine::JoinHandle<()>>,
+    pub tid: Option<usize>,
+}
+
+/// number of actors that have finished (bumped when an actor's closure returns or unwinds)
+pub static ACTORS_DONE: AtomicU32 = AtomicU32::new(0);
+
+struct DoneGuard(Arc<AtomicBool>);
+impl Drop for DoneGuard {
+    fn drop(&mut self) {
+        self.0.store(true, Ordering::Relaxed);
+        bump(&ACTORS_DONE);
+    }
+}
+
+pub fn spawn_actor<F: FnOnce() + Send + 'static>(ctx: Ctx, name: &str, f: F) -> Actor {
+    let done = Arc::new(AtomicBool::new(false));
+    let d2 = done.clone();
+    match ctx {
+        Ctx::Thread => {
+            let tid = engine::spawn(name, move || {
+                let _g = DoneGuard(d2);
+                f();
+            });
+            Actor { name: name.to_string(), ctx, done, co: None, tid: Some(tid) }
+        }
+        Ctx::Co => {
+            let h = unsafe {
+                may::coroutine::spawn(move || {
+                    let _g = DoneGuard(d2);
+                    f();
+                })
+            };
+            Actor { name: name.to_string(), ctx, done, co: Some(h), tid: None }
+        }
+    }
+}
+
+/// wait for all actors (bounded in virtual time); names the ones that hang
+pub fn await_actors(actors: &[Actor], deadline: u64) {
+    loop {
+        let pending: Vec<&Actor> = actors.iter().filter(|a| !a.done.load(Ordering::Relaxed)).collect();
+        if pending.is_empty() {
+            return;
+        }
+        let now = engine::now();
+        if now >= deadline {
+            let names: Vec<String> = pending.iter().map(|a| a.name.clone()).collect();
+            engine::fail(
+                "hung",
+                &format!(
+                    "actors never finished: {}; in flight: {}; {}",
+                    names.join(","),
+                    OPS.pending(),
+                    engine::thread_dump()
+                ),
+            );
+        }
+        engine::wait_key(&ACTORS_DONE as *const _ as usize, Some(deadline - now));
+    }
+}
+
+/// `n` harness yield points in the current context (thread: engine, coroutine: yield_now)
+pub fn dally(n: u32) {
+    for _ in 0..n {
+        relax();
+    }
+}
